@@ -63,7 +63,7 @@ fn apply_preset(vm: &mut Vm, k: usize) {
 fn step_n<const PREDICATE: bool>(vm: &mut Vm, n: usize, what: &str) {
     for i in 0..n {
         let o = of_exec(catch_any(|| vm.execute::<PREDICATE>()));
-        assert_eq!(o, Obs::Ok("proceed".into()), "{what}: setup step {i}");
+        assert_eq!(o, Obs::Ok("proceed"), "{what}: setup step {i}");
     }
 }
 
@@ -148,7 +148,7 @@ fn prepare(env: &Env, with_edge: bool) -> Prepared {
                         RegId::ZERO,
                     )))
                 }));
-                if o != Obs::Ok("proceed".into()) {
+                if o != Obs::Ok("proceed") {
                     break
                 }
             }
@@ -285,7 +285,7 @@ fn explore_single(ctx: &Ctx, env: &Env) {
     let raws = single_raws(env);
     let nc = prep.class_names.len();
     let mut presets: Vec<usize> = if ctx.quick() {
-        (0..nc).step_by(2).collect()
+        (0..nc).step_by(3).collect()
     } else {
         (0..nc).collect()
     };
